@@ -644,6 +644,130 @@ pub mod deep {
     }
 }
 
+/// Every named type below `Root` is reachable through exactly one kind of edge,
+/// so that dropping one arm of a graph traversal is observable.
+pub mod reach {
+    use super::*;
+    use std::collections::BTreeMap;
+    use std::marker::PhantomData;
+    #[derive(TypeInfo)]
+    pub struct ViaTuple {
+        pub v: u8,
+    }
+    #[derive(TypeInfo)]
+    pub struct ViaArray {
+        pub v: u8,
+    }
+    #[derive(TypeInfo)]
+    pub struct ViaSeq {
+        pub v: u8,
+    }
+    #[derive(TypeInfo, parity_scale_codec::Encode, parity_scale_codec::Decode, Clone, Copy)]
+    pub struct ViaCompact(pub u32);
+    impl parity_scale_codec::CompactAs for ViaCompact {
+        type As = u32;
+        fn encode_as(&self) -> &u32 {
+            &self.0
+        }
+        fn decode_from(x: u32) -> Result<Self, parity_scale_codec::Error> {
+            Ok(ViaCompact(x))
+        }
+    }
+    impl From<Compact<ViaCompact>> for ViaCompact {
+        fn from(x: Compact<ViaCompact>) -> Self {
+            x.0
+        }
+    }
+    #[derive(TypeInfo)]
+    pub struct ViaVariantNamed {
+        pub v: u8,
+    }
+    #[derive(TypeInfo)]
+    pub struct ViaVariantUnnamed {
+        pub v: u8,
+    }
+    #[derive(TypeInfo, PartialEq, Eq, PartialOrd, Ord)]
+    pub struct ViaMapKey {
+        pub v: u8,
+    }
+    #[derive(TypeInfo)]
+    pub struct ViaMapVal {
+        pub v: u8,
+    }
+    #[derive(TypeInfo)]
+    pub struct ViaOption {
+        pub v: u8,
+    }
+    #[derive(TypeInfo)]
+    pub struct ViaResultErr {
+        pub v: u8,
+    }
+    #[derive(TypeInfo)]
+    pub struct ViaBox {
+        pub v: u8,
+    }
+    #[derive(TypeInfo)]
+    pub struct ViaNested {
+        pub v: u8,
+    }
+    #[derive(TypeInfo)]
+    pub struct ViaGenericField {
+        pub v: u8,
+    }
+    /// reachable from Root only as a type parameter that no field uses
+    #[derive(TypeInfo)]
+    pub struct ViaParamOnly {
+        pub v: u8,
+    }
+    #[derive(TypeInfo)]
+    pub struct Wrapper<T> {
+        pub inner: T,
+    }
+    #[derive(TypeInfo)]
+    pub struct Marker<T> {
+        pub n: u8,
+        pub _p: PhantomData<T>,
+    }
+    #[derive(TypeInfo)]
+    pub enum E {
+        N { f: ViaVariantNamed },
+        U(ViaVariantUnnamed),
+        Nothing,
+    }
+    #[derive(TypeInfo)]
+    pub struct Second {
+        pub via: Wrapper<ViaGenericField>,
+    }
+    #[derive(TypeInfo)]
+    pub struct Root {
+        pub a: (u8, ViaTuple),
+        pub b: [ViaArray; 2],
+        pub c: Vec<ViaSeq>,
+        #[codec(compact)]
+        pub d: ViaCompact,
+        pub e: E,
+        pub f: BTreeMap<ViaMapKey, ViaMapVal>,
+        pub g: Option<ViaOption>,
+        pub h: Result<u8, ViaResultErr>,
+        pub i: Box<ViaBox>,
+        pub j: Vec<[(u8, Option<ViaNested>); 2]>,
+        pub k: Second,
+        pub l: Marker<ViaParamOnly>,
+    }
+    /// not reachable from Root at all
+    #[derive(TypeInfo)]
+    pub struct Island {
+        pub lonely: Unrelated,
+    }
+    #[derive(TypeInfo)]
+    pub struct Unrelated {
+        pub v: u8,
+    }
+    pub fn metas() -> Vec<MetaType> {
+        metas![Root, Island]
+    }
+}
+
 pub mod awkward_ok {
     use super::*;
     /// A user type that merely shares its identifier with a prelude type other than Cow.
@@ -817,6 +941,7 @@ pub fn families() -> Vec<Entry> {
         ("wrappers", wrappers::metas()),
         ("calls", calls::metas()),
         ("deep", deep::metas()),
+        ("reach", reach::metas()),
         ("awkward_ok", awkward_ok::metas()),
         ("awkward_rawident", awkward_rawident::metas()),
         ("awkward_duration", awkward_duration::metas()),
@@ -849,6 +974,7 @@ pub fn families() -> Vec<Entry> {
                 wrappers::metas(),
                 calls::metas(),
                 deep::metas(),
+                reach::metas(),
                 awkward_ok::metas(),
             ]
             .into_iter()
